@@ -472,7 +472,16 @@ def check_property(prop, tier, seed):
         # failed obligation; a failure in an item whose aids are all in place stands whatever happened elsewhere
         def lost_for(f):
             return [a for a in lost if f.get("item") and a.split(":")[0].strip() == f["item"]]
-        solid = [f for f in violations if not lost_for(f)]
+        # a failed HINT (an injected proof step: assert / lemma call whose id contains `.hint`) with every contract clause,
+        # invariant and safety obligation discharged says nothing about the code: the rest was proved assuming the hint.
+        # It is a failed proof, not a failed obligation - decided only by a replayed witness.
+        def is_hint(f):
+            return ".hint" in f["obligation"].split(">>")[-1] or ".hint" in f["obligation"]
+        if all(is_hint(f) for f in violations) and not witness:
+            undecided.append("only proof hints fail (" + ", ".join(sorted({f["obligation"] for f in violations}))[:300] +
+                             "): every contract clause was discharged assuming them, and no failing input was found")
+            violations = []
+        solid = [f for f in violations if not lost_for(f) and not is_hint(f)] or [f for f in violations if not lost_for(f)]
         for f in (solid or violations)[:1]:
             path = os.path.join(HERE, "replays", f"{prop}-{re.sub(r'[^A-Za-z0-9_.-]+', '_', f['obligation'])}.json")
             rep = {"property": prop, "obligation": f["obligation"], "function": f["fn"], "repo_site": f["repo_site"],
